@@ -58,8 +58,8 @@ EXC = {
     'MutArc<ops::merge::MergeObserver>::complete': 'complete?',
     'MutRc<ops::zip::ZipObserver>::complete': 'complete?',
     'MutArc<ops::zip::ZipObserver>::complete': 'complete?',
-    'MutRc<ops::zip::ZipObserver>::next': 'next? complete?',
-    'MutArc<ops::zip::ZipObserver>::next': 'next? complete?',
+    'MutRc<ops::zip::ZipObserver>::next': 'next?',
+    'MutArc<ops::zip::ZipObserver>::next': 'next?',
     'MutRc<ops::combine_latest::CombineLatestObserver>::complete': 'complete?',
     'MutArc<ops::combine_latest::CombineLatestObserver>::complete': 'complete?',
     # flattening: completion depends on the running inner subscriptions (C05)
